@@ -34,9 +34,19 @@ SCRIPTS["lists"] = [c("USER anonymous"), c("MKD {r}"), c("MKD {r}/d1"), c("EPSV"
                     c("CDUP"), c("RNFR {r}/f1"), c("RNTO {r}/d1/f1"), c("DELE {r}/f2"), c("DELE {r}/d1/f1"), c("RMD {r}/d1"),
                     c("RMD {r}"), c("QUIT")]
 NEIGHBOUR = "pasv_after"
+import errno as _errno
+
 EXC = {"oserror": lambda name: OSError(5, "injected @" + name), "value": lambda name: ValueError("injected @" + name),
        "perm": lambda name: PermissionError(13, "injected @" + name), "runtime": lambda name: RuntimeError("injected @" + name),
-       "eof": lambda name: EOFError("injected @" + name)}
+       "eof": lambda name: EOFError("injected @" + name), "timeout": lambda name: TimeoutError("injected @" + name),
+       "etimedout": lambda name: OSError(_errno.ETIMEDOUT, "injected @" + name),
+       "connreset": lambda name: ConnectionResetError(104, "injected @" + name), "key": lambda name: KeyError("injected @" + name),
+       "assertion": lambda name: AssertionError("injected @" + name), "unicode": lambda name: UnicodeDecodeError("utf-8", b"x", 0, 1, name),
+       "invalidstate": lambda name: asyncio.InvalidStateError("injected @" + name), "lookup": lambda name: IndexError("injected @" + name),
+       "memory": lambda name: MemoryError("injected @" + name), "brokenpipe": lambda name: BrokenPipeError(32, "injected @" + name)}
+# NotImplementedError and StopAsyncIteration are the two exception types the path-io layer documents as passing through.
+EXC_ROTATION = ["timeout", "etimedout", "connreset", "key", "value", "perm", "runtime", "eof", "assertion", "unicode", "invalidstate",
+                "lookup", "memory", "brokenpipe"]
 
 
 def normalise(transcript):
@@ -52,11 +62,31 @@ def normalise(transcript):
 
 async def _scenario(loop, script_name, backend, fail_at, tmp, exc="oserror", with_neighbour=True):
     ctl = harness.Ctl()
-    ctl.fail_at = set(fail_at)
-    ctl.exc_factory = EXC[exc]
+    ctl.fail_at_disabled = False
+    skw = {}
+    if exc == "path_timeout":
+        # the k-th blocking call of AsyncPathIO takes 5 virtual seconds in its executor thread; path_timeout is 1 s
+        skw["path_timeout"] = 1.0
+        ctl.on_call = None
+        slow_at = set(fail_at)
+        orig_hit = ctl.hit
+
+        async def hit(name, path=None, conn=None):
+            await orig_hit(name, path, conn)
+            if ctl.scope is None or ctl.scope(conn):
+                if ctl.n in slow_at and not ctl.fail_at_disabled:
+                    loop.exec_slow[loop.exec_calls + 1] = 5.0
+                    ctl.fired.append((ctl.n, name))
+                    if ctl.on_fire:
+                        ctl.on_fire(ctl.n, name)
+
+        ctl.hit = hit
+    else:
+        ctl.fail_at = set(fail_at)
+        ctl.exc_factory = EXC[exc]
     fac = instrument(harness.BACKENDS[backend], ctl)
     users = [aioftp.User(base_path=tmp)] if backend != "mem" else [aioftp.User()]
-    server = aioftp.Server(users, path_io_factory=fac, wait_future_timeout=2, block_size=64)
+    server = aioftp.Server(users, path_io_factory=fac, wait_future_timeout=2, block_size=64, **skw)
     await server.start(HOST, PORT)
     victim = ScriptRunner(render(SCRIPTS[script_name], "/v"))
     fired_steps = []
@@ -88,6 +118,7 @@ async def _scenario(loop, script_name, backend, fail_at, tmp, exc="oserror", wit
     hung = bool(pending)
     # probe: the victim session must still work (all faults have fired or are behind us)
     ctl.fail_at = set()
+    ctl.fail_at_disabled = True
     calls_in_script = ctl.n
     probe = []
     raw = victim.raw
@@ -213,12 +244,16 @@ def cases(tier):
             n = dry["calls"]
             for k in range(1, n + 1):
                 out.append((name, backend, (k,), "oserror"))
+            if tier == "thorough" or name in ("tour", "lists", "restart"):
+                # other exception types a backend can plausibly raise, rotating over the positions
+                for k in range(1, n + 1):
+                    out.append((name, backend, (k,), EXC_ROTATION[(k + len(name)) % len(EXC_ROTATION)]))
             if tier == "thorough" and name in ("tour", "restart", "lists"):
                 for k in range(1, n + 1):
                     for j in range(k + 1, min(n, k + 12) + 1):
                         out.append((name, backend, (k, j), "oserror"))
                 for k in range(1, n + 1):
-                    out.append((name, backend, (k,), ["value", "perm", "runtime", "eof"][k % 4]))
+                    out.append((name, backend, (k,), EXC_ROTATION[(k * 5 + 3) % len(EXC_ROTATION)]))
     return out
 
 
@@ -246,13 +281,15 @@ def replay_enumerate(case):
     judge(case["script"], case["backend"], case["fail_at"], out, solo_neighbour(case["backend"]), "enum")
 
 
-SAMPLED = st.tuples(st.sampled_from(sorted(SCRIPTS)), st.sampled_from(["mem", "fs", "afs"]),
-                    st.lists(st.integers(1, 120), min_size=1, max_size=4, unique=True), st.sampled_from(sorted(EXC)),
+SAMPLED = st.tuples(st.sampled_from(sorted(SCRIPTS)), st.sampled_from(["mem", "fs", "afs", "afs"]),
+                    st.lists(st.integers(1, 120), min_size=1, max_size=4, unique=True), st.sampled_from(sorted(EXC) + ["path_timeout"] * 4),
                     st.lists(st.integers(0, 255), max_size=30))
 
 
 def check_sampled(ctx, case):
     name, backend, fail_at, exc, tape = case
+    if exc == "path_timeout":
+        backend = "afs"  # the only shipped backend whose calls are bounded by path_timeout
     out = run_case(name, backend, set(fail_at), exc, tape)
     solo = solo_neighbour(backend, tape) if not tape else None  # timing-dependent listings: only on the default tape
     in_worker = False
